@@ -39,7 +39,7 @@ def main():
         "setup_cmd": "./setup.sh",
         "hooks": {"guard": "A2O_SNOOPY_VERIF",
                   "enable": "checks compile the snapshot of /repo with -DA2O_SNOOPY_VERIF (vlib/core.py cflags); no hook is present in the source at this commit",
-                  "baseline_off_cmd": "cd /repo && make -j16 && make check",
+                  "baseline_off_cmd": "/verif/tools/run_baseline.sh",
                   "source_commits": [], "add_only": True},
         "engines": [{"name": "coq-proof+correspondence", "path": "check",
                      "serves_properties": sorted(CLAIMED),
